@@ -18,7 +18,7 @@
      * Alloc_MC.cfg model-checks Spec itself in a tiny scope against the
        consequences a caller relies on (the Lemma invariants), which guards against an
        inconsistent or vacuous definition of Good. *)
-EXTENDS Integers, Sequences, FiniteSets, TLC
+EXTENDS Integers, Sequences, SequencesExt, FiniteSets, TLC
 
 CONSTANTS MaxN,        \* at most this many live ranges
           T,           \* time steps 0..T-1
@@ -35,13 +35,9 @@ vars == <<R, phase, out>>
 
 Null == [addr |-> <<>>, total |-> -1]
 
-(* ---- arithmetic helpers (recursive folds: TLC evaluates them in linear time) ---- *)
+(* ---- arithmetic helpers ---- *)
 RoundUp(a, b) == ((a + b - 1) \div b) * b
 Max2(a, b) == IF a >= b THEN a ELSE b
-RECURSIVE MaxOver(_, _, _)         \* max of f[i], i \in lo..hi, 0 for the empty interval (all values are >= 0)
-MaxOver(f, lo, hi) == IF lo > hi THEN 0 ELSE Max2(f[lo], MaxOver(f, lo + 1, hi))
-RECURSIVE SumOver(_, _, _)
-SumOver(f, lo, hi) == IF lo > hi THEN 0 ELSE f[lo] + SumOver(f, lo + 1, hi)
 Dom(Q) == 1..Len(Q)
 
 (* ---- the vocabulary of the property ------------------------------------------- *)
@@ -49,10 +45,11 @@ LiveTogether(a, b) == a.s <= b.e /\ b.s <= a.e              \* alive at a common
 SameEq(a, b) == a.eq # 0 /\ a.eq = b.eq                     \* explicitly declared equivalent
 Disjoint(x, xs, y, ys) == x + xs <= y \/ y + ys <= x        \* byte intervals [x, x+xs) and [y, y+ys)
 End(Q, addr, i) == addr[i] + Q[i].size
-HighEnd(Q, addr) == MaxOver([i \in Dom(Q) |-> End(Q, addr, i)], 1, Len(Q))
-LiveSumAt(Q, t) == SumOver([i \in Dom(Q) |-> IF Q[i].s <= t /\ t <= Q[i].e THEN Q[i].size ELSE 0], 1, Len(Q))
+(* folds (SequencesExt!FoldLeft is evaluated natively by TLC, linear time); all quantities are >= 0 *)
+HighEnd(Q, addr) == FoldLeftDomain(LAMBDA acc, i : Max2(acc, End(Q, addr, i)), 0, Q)     \* the highest end address
+LiveSumAt(Q, t) == FoldLeft(LAMBDA acc, r : IF r.s <= t /\ t <= r.e THEN acc + r.size ELSE acc, 0, Q)   \* sizes alive at t
 (* the sum of live sizes only grows at start times, so the peak is attained at one of them *)
-PeakLiveSum(Q) == MaxOver([i \in Dom(Q) |-> LiveSumAt(Q, Q[i].s)], 1, Len(Q))
+PeakLiveSum(Q) == FoldLeft(LAMBDA acc, r : Max2(acc, LiveSumAt(Q, r.s)), 0, Q)
 EqFree(Q) == \A i \in Dom(Q) : Q[i].eq = 0
 
 (* ---- the property, one operator per clause --------------------------------------- *)
@@ -68,7 +65,7 @@ Aligned(Q, addr) == \A i \in Dom(Q) : addr[i] >= 0 /\ addr[i] % Q[i].al = 0
 (* the reported total "equals the highest end address": never under-reports; may round the end of a
    buffer up to that buffer's own alignment (Greedy and LinearAlloc do, by construction), hence is
    exact whenever every size is a multiple of its alignment *)
-TotalUpper(Q, addr) == MaxOver([i \in Dom(Q) |-> RoundUp(End(Q, addr, i), Q[i].al)], 1, Len(Q))
+TotalUpper(Q, addr) == FoldLeftDomain(LAMBDA acc, i : Max2(acc, RoundUp(End(Q, addr, i), Q[i].al)), 0, Q)
 TotalOK(Q, addr, total) ==
     /\ HighEnd(Q, addr) <= total
     /\ total <= TotalUpper(Q, addr)
